@@ -108,3 +108,39 @@ func vh_L2_basepointTable() {
 	bp := tbl.Basepoint()
 	verif.Assert(kEq(getK(bp), kGen(0)), "Basepoint() = B")
 }
+
+// The dispatcher behind MulBasepoint on the portable back end: [s]P for EVERY 255-bit s, not only s < L (a table
+// may be built over a point with a torsion component, where s and s mod L differ).
+//
+//verif:ob prop=C03 name=L2_MulBasepoint_dispatch_unreduced_scalars mode=int tags=purego use=pt,lookup native=1
+func vh_L2_basepointDispatch() {
+	if verif.Native() {
+		basepointDispatchEndToEnd()
+		return
+	}
+	B := genPoint("B", 0)
+	g := newEdwardsBasepointTableGeneric(B)
+	tbl := &EdwardsBasepointTable{inner: g}
+	s, sv := anyScalar255("s")
+	var out EdwardsPoint
+	out.MulBasepoint(tbl, s)
+	verif.Assert(kEq(getK(&out), kScaleI(kGen(0), sv)), "MulBasepoint(table of P, s) = [s]P over the integers (no reduction of s)")
+}
+
+func basepointDispatchEndToEnd() {
+	var sb, kb [32]byte
+	verif.AnyBytes("s", sb[:])
+	verif.AnyBytes("k", kb[:])
+	sb[31] &= 127
+	kb[31] &= 127
+	s, _ := scalar.NewFromBits(sb[:])
+	k, _ := scalar.NewFromBits(kb[:])
+	// a point with a torsion component: [k]B + T8
+	var P, out, ref EdwardsPoint
+	P.MulBasepoint(ED25519_BASEPOINT_TABLE, k)
+	P.Add(&P, EIGHT_TORSION[1])
+	tbl := NewEdwardsBasepointTable(&P)
+	out.MulBasepoint(tbl, s)
+	edwardsMulGeneric(&ref, &P, s)
+	verif.Assert(out.Equal(&ref) == 1, "MulBasepoint over a table of a mixed-order point = [s]P by the variable-base routine")
+}
